@@ -1,10 +1,11 @@
 import Splipy.Lemmas.C04PerSeq
+import Splipy.Lemmas.C07PerWindow
 import Splipy.Lemmas.C07Roll
 import Splipy.Lemmas.C07SplitPer
 import Splipy.Model.Periodic
 
 /-!
-# `lower_periodic`: one round and the whole loop (model level, guard `n ≥ p + k`)
+# `lower_periodic`: one round and the whole loop (model level, every valid periodic direction)
 
 One round = insert `start` (periodic insertion, `C04.PerRefines`), roll control points and knots by
 one, decrement the continuity, drop the last knot.  The wrapped-image sum `wsum` of every fibre is
@@ -78,30 +79,51 @@ theorem bisectR_start {b : Basis K} (hv : b.Valid) (hseam : b.start < b.kn b.ord
     exact absurd hseam (not_lt.2 this)
   omega
 
-/-- Inserting `start` into a valid periodic basis (guard, seam with its declared multiplicity):
-the new knots up to index `n + 1` are `np.insert(knots, p, start)`. -/
-theorem insert_start_knots {b : Basis K} (hv : b.Valid) (k : ℕ) (hk : b.periodic = (k : Int))
-    (hguard : b.order + k ≤ b.numFunctions) (hseam : b.start < b.kn b.order) :
-    ∃ bk Ck, b.insertKnot b.start = .ok (bk, Ck) ∧
-      ∀ j, j ≤ b.numFunctions + 1 → bk.kn j = insertSeq b.kn b.order b.start j := by
-  obtain ⟨bk, Ck, h1, _, _, _, _, _, _, _, _, _, hkn, _⟩ :=
-    insertKnot_periodic b hv k hk hguard b.start ⟨le_refl _, hv.start_lt_stop⟩
-  refine ⟨bk, Ck, h1, fun j hj => ?_⟩
-  have hs := hv.size_ge
-  have hn := numFunctions_periodic b k hk
-  have hpk : k + 2 ≤ b.order := by
-    rcases hv.periodic_le with h | h
-    · rw [hk] at h; omega
-    · rw [hk] at h; omega
-  rw [hkn j (by omega), bisectR_start hv hseam]
-  unfold repSeq
-  rw [if_pos (by omega)]
-  by_cases hw : b.numFunctions + 1 ≤ j ∧ j < b.numFunctions + 1 + (b.order + k + 1)
-  · rw [if_pos hw]
-    have : j = b.numFunctions + 1 := by omega
-    subst this
-    rw [Nat.sub_self]; ring
-  · rw [if_neg hw]
+/-- Inserting `start` into ANY valid periodic basis: the new knot `p` is `start` (the seam grew to the
+right of index `p - 1`), and if the seam had exactly its declared multiplicity (`start < knots[p]`) the
+next knot is the old knot `p`. -/
+theorem insert_start_window {b : Basis K} (hv : b.Valid) (k : ℕ) (hk : b.periodic = (k : Int)) :
+    ∃ bk Ck, b.insertKnot b.start = .ok (bk, Ck) ∧ PerRefines b bk Ck 1 ∧
+      bk.kn b.order = b.start ∧ (b.start < b.kn b.order → bk.kn (b.order + 1) = b.kn b.order) := by
+  obtain ⟨bk, Ck, h1, hR, hkn⟩ :=
+    insertKnot_periodic_window b hv k hk b.start ⟨le_refl _, le_of_lt hv.start_lt_stop⟩
+  refine ⟨bk, Ck, h1, hR, ?_, ?_⟩
+  all_goals
+    have hs := hv.size_ge
+    have hp := hv.order_pos
+    have hn := numFunctions_periodic b k hk
+    have hn1 := numFunctions_pos hv
+    obtain ⟨r1, r2, r3⟩ := bisectRight_spec b.kn hv.kn_mono b.start b.knots.size
+    have r2' : ∀ i, i < b.bisectR b.start → b.kn i ≤ b.start := r2
+    have r3' : ∀ i, b.bisectR b.start ≤ i → i < b.knots.size → b.start < b.kn i := r3
+    have hmu2 : b.bisectR b.start ≤ b.knots.size - b.order := by
+      by_contra hlt
+      have h2' : b.kn (b.knots.size - b.order) ≤ b.start := r2' _ (by omega)
+      exact absurd hv.start_lt_stop (not_lt.2 h2')
+    have hmuEq : b.insertMu b.start = b.bisectR b.start := by
+      unfold Basis.insertMu
+      rw [if_pos (by rw [hk]; omega)]
+      exact Nat.min_eq_left hmu2
+    have hlow : b.order ≤ b.bisectR b.start := by
+      by_contra hc
+      have := r3' (b.order - 1) (by omega) (by omega)
+      exact absurd this (lt_irrefl _)
+  · -- knot `p`
+    have hclose : b.bisectR b.start ≤ b.order - 1 + b.numFunctions := by
+      by_contra hc
+      have := kn_run_le_period hv k hk (b.order - 1) (b.bisectR b.start - 1) (by omega) (by omega)
+      have h2 := r2' (b.bisectR b.start - 1) (by omega)
+      exact absurd (lt_of_lt_of_le this h2) (lt_irrefl _)
+    rw [hkn b.order (by rw [hmuEq]; omega) (by rw [hmuEq]; omega) (by omega), hmuEq]
+    rcases Nat.lt_or_ge b.order (b.bisectR b.start) with h | h
+    · rw [bo_ins_lt h]
+      exact le_antisymm (r2' _ h) (hv.kn_mono (show b.order - 1 ≤ b.order by omega))
+    · have : b.order = b.bisectR b.start := by omega
+      rw [← this, bo_ins_self]
+  · intro hseam
+    have hmu : b.bisectR b.start = b.order := bisectR_start hv hseam
+    rw [hkn (b.order + 1) (by rw [hmuEq, hmu]; omega) (by rw [hmuEq, hmu]; omega) (by omega), hmuEq, hmu,
+      bo_ins_gt (le_refl _) rfl]
 
 /-- Knots of a rolled basis after cutting `r` knots at the end (any new periodicity `P`). -/
 theorem Basis.roll_extract_kn {b : Basis K} (hv : b.Valid) (hper : 0 ≤ b.periodic) (mu : ℕ)
@@ -130,7 +152,7 @@ theorem Basis.roll_extract_kn {b : Basis K} (hv : b.Valid) (hper : 0 ≤ b.perio
   exact Option.some.inj e2
 
 /-- State of an object after `j` rounds of the `lower_periodic` loop, relative to the start `o`. -/
-structure LowerInv (o o' : Obj K) (dir j : ℕ) : Prop where
+structure LowerCore (o o' : Obj K) (dir j : ℕ) : Prop where
   valid : (o'.basis dir).Valid
   order_eq : (o'.basis dir).order = (o.basis dir).order
   periodic_eq : (o'.basis dir).periodic = (o.basis dir).periodic - j
@@ -138,7 +160,6 @@ structure LowerInv (o o' : Obj K) (dir j : ℕ) : Prop where
   nAll_eq : (o'.basis dir).nAll = (o.basis dir).nAll
   start_eq : (o'.basis dir).start = (o.basis dir).start
   stop_eq : (o'.basis dir).stop = (o.basis dir).stop
-  seam : (o'.basis dir).start < (o'.basis dir).kn (o.basis dir).order
   other : ∀ d, d ≠ dir → o'.basis d = o.basis d
   rational_eq : o'.rational = o.rational
   shape_eq : o'.cps.shape = o.cps.shape.set dir ((o.basis dir).numFunctions + j)
@@ -152,14 +173,19 @@ structure LowerInv (o o' : Obj K) (dir j : ℕ) : Prop where
       = wsum s (o.basis dir).kn ((o.basis dir).order - 1) (o.basis dir).nAll
         (o.basis dir).numFunctions (fibre o dir a i) d t
 
-/-- **One round of `lower_periodic`.** -/
-theorem lowerStep_spec (o : Obj K) (dir : ℕ) (hdir : dir < o.bases.size)
+/-- `LowerCore` plus: the seam keeps exactly its declared multiplicity (`start < knots[p]`; only when
+the object started like that). -/
+structure LowerInv (o o' : Obj K) (dir j : ℕ) : Prop extends LowerCore o o' dir j where
+  seam : (o'.basis dir).start < (o'.basis dir).kn (o.basis dir).order
+
+/-- **One round of `lower_periodic`**, every valid periodic direction. -/
+theorem lowerStep_core (o : Obj K) (dir : ℕ) (hdir : dir < o.bases.size)
     (hax : dir < o.cps.shape.length) (hv : (o.basis dir).Valid) (k : ℕ)
     (hk : (o.basis dir).periodic = (k : Int))
-    (hguard : (o.basis dir).order + k ≤ (o.basis dir).numFunctions)
-    (hshape : o.cps.shape.getD dir 0 = (o.basis dir).numFunctions)
-    (hseam : (o.basis dir).start < (o.basis dir).kn (o.basis dir).order) :
-    ∃ o2, o.lowerStep dir = .ok o2 ∧ LowerInv o o2 dir 1 := by
+    (hshape : o.cps.shape.getD dir 0 = (o.basis dir).numFunctions) :
+    ∃ o2, o.lowerStep dir = .ok o2 ∧ LowerCore o o2 dir 1 ∧
+      ((o.basis dir).start < (o.basis dir).kn (o.basis dir).order →
+        (o2.basis dir).start < (o2.basis dir).kn (o.basis dir).order) := by
   set b := o.basis dir with hb
   have hp := hv.order_pos
   have hpk : k + 2 ≤ b.order := by
@@ -170,15 +196,10 @@ theorem lowerStep_spec (o : Obj K) (dir : ℕ) (hdir : dir < o.bases.size)
   have hsize := Basis.per_size hv hper
   have hktn : b.periodic.toNat = k := by rw [hk]; omega
   rw [hktn] at hsize
-  obtain ⟨o1, C, h1, hR, hother, hrat, hshp, hout, hinn, hfib, hbases⟩ :=
-    insertKnots_fibres_periodic o dir hdir hax hv k hk hguard hshape [b.start]
-      (by
-        intro x hxm
-        rw [List.mem_singleton] at hxm
-        rw [hxm, wrapVal_of_mem _ _ (le_refl _) (le_of_lt hv.start_lt_stop)]
-        exact ne_of_lt hv.start_lt_stop)
+  obtain ⟨o1, C, h1, hR, _, hother, hrat, hshp, hout, hinn, hfib, hbases⟩ :=
+    insertKnots_fibres_periodic_all o dir hdir hax hv k hk hshape [b.start]
   simp only [List.length_singleton] at hR hshp hfib
-  obtain ⟨bk, Ck, hins, hknk⟩ := insert_start_knots hv k hk hguard hseam
+  obtain ⟨bk, Ck, hins, _, hknk, hknk1⟩ := insert_start_window hv k hk
   have hb1 : o1.basis dir = bk := insertKnots_single_basis o o1 dir hdir _ bk Ck hins h1
   set b' := o1.basis dir with hb'
   have hv' : b'.Valid := hR.valid
@@ -187,8 +208,6 @@ theorem lowerStep_spec (o : Obj K) (dir : ℕ) (hdir : dir < o.bases.size)
   have hord : b'.order = b.order := hR.order_eq
   have hn' : b'.numFunctions = b.numFunctions + 1 := hR.num_eq
   have hsize' : b'.knots.size = b.knots.size + 1 := hR.size_eq
-  have hkn' : ∀ j, j ≤ b.numFunctions + 1 → b'.kn j = insertSeq b.kn b.order b.start j := by
-    intro j hj; rw [hb1]; exact hknk j hj
   have hext : ∀ i, i < b'.knots.size → b'.ext i = b'.kn i := Basis.ext_eq hv' hper'
   have hTpos : 0 < b.stop - b.start := sub_pos.2 hv.start_lt_stop
   have hT' : b'.stop - b'.start = b.stop - b.start := by rw [hR.start_eq, hR.stop_eq]
@@ -215,10 +234,9 @@ theorem lowerStep_spec (o : Obj K) (dir : ℕ) (hdir : dir < o.bases.size)
     rfl
   have ho2b : o2.basis dir = b2 := basis_set o1 dir hdir1 _ _
   -- knot values
-  have hknp : b'.kn b.order = b.start := by
-    rw [hkn' _ (by omega), bo_ins_self]
-  have hknp1 : b'.kn (b.order + 1) = b.kn b.order := by
-    rw [hkn' _ (by omega), bo_ins_gt (le_refl _) rfl]
+  have hknp : b'.kn b.order = b.start := by rw [hb1]; exact hknk
+  have hknp1 : b.start < b.kn b.order → b'.kn (b.order + 1) = b.kn b.order := by
+    intro h; rw [hb1]; exact hknk1 h
   have hstart2 : b2.start = b.start := by
     show b2.kn (b2.order - 1) = _
     rw [hb2ord, hb2kn _ (by omega), show 1 + (b.order - 1) = b.order by omega, hext _ (by omega), hknp]
@@ -246,16 +264,17 @@ theorem lowerStep_spec (o : Obj K) (dir : ℕ) (hdir : dir < o.bases.size)
       rw [hnum2, hstart2, hstop2, hb2kn _ (by omega), hb2kn _ (by omega),
         show 1 + (i + (b.numFunctions + 1)) = (1 + i) + b'.numFunctions by rw [hn']; omega,
         Basis.ext_add hv' hper', hT']
-  have hseam2 : b2.start < b2.kn b.order := by
+  have hseam2 : b.start < b.kn b.order → b2.start < b2.kn b.order := by
+    intro hseam
     rw [hstart2, hb2kn _ (by omega), show 1 + b.order = b.order + 1 by omega, hext _ (by omega),
-      hknp1]
+      hknp1 hseam]
     exact hseam
   have haxs : dir < o1.cps.shape.length := by rw [hshp, List.length_set]; exact hax
   have hrows : o1.cps.shape.getD dir 1 = b.numFunctions + 1 := by
     rw [hshp]; exact Tensor.getD_set_self _ _ _ hax
   refine ⟨o2, hstep, ⟨by rw [ho2b]; exact hvalid2, by rw [ho2b]; exact hb2ord, ?_,
     by rw [ho2b]; exact hnum2, by rw [ho2b]; exact hnAll2, by rw [ho2b]; exact hstart2,
-    by rw [ho2b]; exact hstop2, by rw [ho2b]; exact hseam2, ?_, hrat, ?_, ?_, ?_, ?_, ?_⟩⟩
+    by rw [ho2b]; exact hstop2, ?_, hrat, ?_, ?_, ?_, ?_, ?_⟩, by rw [ho2b]; exact hseam2⟩
   · rw [ho2b, hb2per, hk]; push_cast; ring
   · intro d hd
     rw [ho2, basis_set_ne o1 dir d hd, hother d hd]
@@ -307,6 +326,18 @@ theorem lowerStep_spec (o : Obj K) (dir : ℕ) (hdir : dir < o.bases.size)
     rw [hroll_sum, ← hfull, wsum_congr s _ _ _ n' hn'pos _ _ d t (fun r hr => hfib a i r ha hi hr)]
     exact hR.same (fibre o dir a i) s d t ht
 
+/-- **One round of `lower_periodic`**, older form with the guard `n ≥ p + k` (not used) and the seam
+hypothesis (kept by the round). -/
+theorem lowerStep_spec (o : Obj K) (dir : ℕ) (hdir : dir < o.bases.size)
+    (hax : dir < o.cps.shape.length) (hv : (o.basis dir).Valid) (k : ℕ)
+    (hk : (o.basis dir).periodic = (k : Int))
+    (_hguard : (o.basis dir).order + k ≤ (o.basis dir).numFunctions)
+    (hshape : o.cps.shape.getD dir 0 = (o.basis dir).numFunctions)
+    (hseam : (o.basis dir).start < (o.basis dir).kn (o.basis dir).order) :
+    ∃ o2, o.lowerStep dir = .ok o2 ∧ LowerInv o o2 dir 1 := by
+  obtain ⟨o2, h1, h2, h3⟩ := lowerStep_core o dir hdir hax hv k hk hshape
+  exact ⟨o2, h1, ⟨h2, h3 hseam⟩⟩
+
 theorem list_set_getD_self (l : List ℕ) (i v : ℕ) (hi : i < l.length) (h : l.getD i 0 = v) :
     l.set i v = l := by
   apply List.ext_getElem
@@ -321,22 +352,26 @@ theorem list_set_getD_self (l : List ℕ) (i v : ℕ) (hi : i < l.length) (h : l
 theorem list_getD_set_self0 (l : List ℕ) (i v : ℕ) (hi : i < l.length) : (l.set i v).getD i 0 = v := by
   simp [List.getD, hi]
 
+theorem LowerCore.refl (o : Obj K) (dir : ℕ) (hax : dir < o.cps.shape.length)
+    (hv : (o.basis dir).Valid)
+    (hshape : o.cps.shape.getD dir 0 = (o.basis dir).numFunctions) : LowerCore o o dir 0 :=
+  ⟨hv, rfl, by simp, rfl, rfl, rfl, rfl, fun _ _ => rfl, rfl,
+    (list_set_getD_self _ _ _ hax hshape).symm, rfl, rfl, rfl, fun _ _ _ _ _ _ _ _ => rfl⟩
+
 theorem LowerInv.refl (o : Obj K) (dir : ℕ) (hax : dir < o.cps.shape.length)
     (hv : (o.basis dir).Valid)
     (hshape : o.cps.shape.getD dir 0 = (o.basis dir).numFunctions)
     (hseam : (o.basis dir).start < (o.basis dir).kn (o.basis dir).order) : LowerInv o o dir 0 :=
-  ⟨hv, rfl, by simp, rfl, rfl, rfl, rfl, hseam, fun _ _ => rfl, rfl,
-    (list_set_getD_self _ _ _ hax hshape).symm, rfl, rfl, rfl, fun _ _ _ _ _ _ _ _ => rfl⟩
+  ⟨LowerCore.refl o dir hax hv hshape, hseam⟩
 
-theorem LowerInv.step {o o' o'' : Obj K} {dir j : ℕ} (h1 : LowerInv o o' dir j)
-    (h2 : LowerInv o' o'' dir 1) : LowerInv o o'' dir (j + 1) := by
+theorem LowerCore.step {o o' o'' : Obj K} {dir j : ℕ} (h1 : LowerCore o o' dir j)
+    (h2 : LowerCore o' o'' dir 1) : LowerCore o o'' dir (j + 1) := by
   refine ⟨h2.valid, h2.order_eq.trans h1.order_eq, ?_, ?_, h2.nAll_eq.trans h1.nAll_eq,
-    h2.start_eq.trans h1.start_eq, h2.stop_eq.trans h1.stop_eq, ?_, ?_, h2.rational_eq.trans h1.rational_eq,
+    h2.start_eq.trans h1.start_eq, h2.stop_eq.trans h1.stop_eq, ?_, h2.rational_eq.trans h1.rational_eq,
     ?_, h2.outer_eq.trans h1.outer_eq, h2.inner_eq.trans h1.inner_eq,
     h2.bases_size.trans h1.bases_size, ?_⟩
   · rw [h2.periodic_eq, h1.periodic_eq]; push_cast; ring
   · rw [h2.num_eq, h1.num_eq]; omega
-  · have := h2.seam; rw [h1.order_eq] at this; exact this
   · intro d hd; rw [h2.other d hd, h1.other d hd]
   · rw [h2.shape_eq, h1.shape_eq, List.set_set, h1.num_eq]; rfl
   · intro a i ha hi s d t ht
@@ -345,6 +380,10 @@ theorem LowerInv.step {o o' o'' : Obj K} {dir j : ℕ} (h1 : LowerInv o o' dir j
     rw [h1.order_eq, h1.nAll_eq, h1.num_eq] at this
     rw [show (o.basis dir).numFunctions + (j + 1) = (o.basis dir).numFunctions + j + 1 by omega, this]
     exact h1.same a i ha hi s d t ht
+
+theorem LowerInv.step {o o' o'' : Obj K} {dir j : ℕ} (h1 : LowerInv o o' dir j)
+    (h2 : LowerInv o' o'' dir 1) : LowerInv o o'' dir (j + 1) :=
+  ⟨h1.toLowerCore.step h2.toLowerCore, by have := h2.seam; rw [h1.order_eq] at this; exact this⟩
 
 /-- The loop of `lower_periodic` started with `r + 1` units of fuel in a state `j` rounds after
 `o0`, `r` rounds away from the target. -/
@@ -375,7 +414,8 @@ theorem lowerLoop_spec (o0 : Obj K) (dir : ℕ) (hdir : dir < o0.bases.size)
     rw [Obj.lowerLoop_succ_lt o' target dir (r + 1) (by rw [hper']; omega), hstep]
     exact hloop
 
-/-- **`lower_periodic(target)`** for `-1 ≤ target ≤ k` under the guard `n ≥ p + k`. -/
+/-- Older form of `lowerPeriodic_spec_all` (the guard `hguard` is not used; with `hseam` the seam
+keeps exactly its declared multiplicity). -/
 theorem lowerPeriodic_spec (o : Obj K) (dir : ℕ) (hdir : dir < o.bases.size)
     (hax : dir < o.cps.shape.length) (hv : (o.basis dir).Valid) (k : ℕ)
     (hk : (o.basis dir).periodic = (k : Int))
@@ -388,6 +428,46 @@ theorem lowerPeriodic_spec (o : Obj K) (dir : ℕ) (hdir : dir < o.bases.size)
   rw [hk]
   obtain ⟨o', h, hI⟩ := lowerLoop_spec o dir hdir hax k hk hguard target ((k : Int) - target).toNat o 0
     (LowerInv.refl o dir hax hv hshape hseam) (by omega) h1
+  rw [Nat.zero_add] at hI
+  exact ⟨o', h, hI⟩
+
+/-- The loop of `lower_periodic`, every valid periodic direction (no guard, no seam hypothesis). -/
+theorem lowerLoop_core (o0 : Obj K) (dir : ℕ) (hdir : dir < o0.bases.size)
+    (hax : dir < o0.cps.shape.length) (k : ℕ) (hk : (o0.basis dir).periodic = (k : Int))
+    (target : Int) :
+    ∀ (r : ℕ) (o' : Obj K) (j : ℕ), LowerCore o0 o' dir j → (k : Int) - j - r = target →
+      -1 ≤ target →
+      ∃ o'', Obj.lowerPeriodic.loop target dir (r + 1) o' = .ok o'' ∧ LowerCore o0 o'' dir (j + r) := by
+  intro r
+  induction r with
+  | zero =>
+    intro o' j hI ht _
+    refine ⟨o', ?_, hI⟩
+    apply Obj.lowerLoop_succ_eq
+    rw [hI.periodic_eq, hk]; omega
+  | succ r ih =>
+    intro o' j hI ht hm
+    have hper' : (o'.basis dir).periodic = ((k - j : ℕ) : Int) := by
+      rw [hI.periodic_eq, hk]; omega
+    obtain ⟨o2, hstep, hI2, _⟩ := lowerStep_core o' dir (by rw [hI.bases_size]; exact hdir)
+      (by rw [hI.shape_eq, List.length_set]; exact hax) hI.valid (k - j) hper'
+      (by rw [hI.shape_eq, list_getD_set_self0 _ _ _ hax, hI.num_eq])
+    obtain ⟨o3, hloop, hI3⟩ := ih o2 (j + 1) (hI.step hI2) (by push_cast; omega) hm
+    refine ⟨o3, ?_, by rw [show j + (r + 1) = j + 1 + r by omega]; exact hI3⟩
+    rw [Obj.lowerLoop_succ_lt o' target dir (r + 1) (by rw [hper']; omega), hstep]
+    exact hloop
+
+/-- **`lower_periodic(target)`** for `-1 ≤ target ≤ k`: EVERY valid periodic direction. -/
+theorem lowerPeriodic_spec_all (o : Obj K) (dir : ℕ) (hdir : dir < o.bases.size)
+    (hax : dir < o.cps.shape.length) (hv : (o.basis dir).Valid) (k : ℕ)
+    (hk : (o.basis dir).periodic = (k : Int))
+    (hshape : o.cps.shape.getD dir 0 = (o.basis dir).numFunctions)
+    (target : Int) (h1 : -1 ≤ target) (h2 : target ≤ k) :
+    ∃ o', o.lowerPeriodic target dir = .ok o' ∧ LowerCore o o' dir ((k : Int) - target).toNat := by
+  unfold Obj.lowerPeriodic
+  rw [hk]
+  obtain ⟨o', h, hI⟩ := lowerLoop_core o dir hdir hax k hk target ((k : Int) - target).toNat o 0
+    (LowerCore.refl o dir hax hv hshape) (by omega) h1
   rw [Nat.zero_add] at hI
   exact ⟨o', h, hI⟩
 
